@@ -396,118 +396,7 @@ func checkC08(w *World, r *Report) {
 	})
 
 	r.Rule("R08.15", "indentation stripping measures the column of the opening quote from the lexer's last-token position: when it is applied, the last token taken from the lexer is the piece's own closing quote — no further token is read in between", 1)
-	r.guard("R08.15", func() {
-		tw := w.SSAFunc(w.Func("parse", "trimWhitespace"))
-		exp := w.SSAFunc(w.Method("parse", "Tree", "expect"))
-		quote, okQ := pkgConstInt(w, "parse", "itemQuote")
-		if tw == nil || exp == nil || !okQ {
-			panic(undecided{"parse.trimWhitespace / expect / itemQuote"})
-		}
-		isLastPos := func(a ssa.Value) bool {
-			fa, ok := a.(*ssa.FieldAddr)
-			if !ok {
-				return false
-			}
-			pt, _ := fa.X.Type().Underlying().(*types.Pointer)
-			if pt == nil {
-				return false
-			}
-			st, _ := pt.Elem().Underlying().(*types.Struct)
-			return st != nil && st.Field(fa.Field).Name() == nm(w.Field("parse", "lexer", "lastPos"))
-		}
-		touches := func(f *ssa.Function, write bool) bool {
-			for _, g := range bodiesDeep(f, 6) {
-				for _, b := range g.Blocks {
-					for _, in := range b.Instrs {
-						switch x := in.(type) {
-						case *ssa.Store:
-							if write && isLastPos(x.Addr) {
-								return true
-							}
-						case *ssa.UnOp:
-							if !write && x.Op == token.MUL && isLastPos(x.X) {
-								return true
-							}
-						}
-					}
-				}
-			}
-			return false
-		}
-		r.Check(touches(tw, false), "R08.15", "trimWhitespace reads the last-token position", w.Func("parse", "trimWhitespace").Pos(), "reads lexer.lastPos", "")
-		memo := map[*ssa.Function]bool{}
-		advances := func(c *ssa.Call) bool {
-			g := c.Call.StaticCallee()
-			if g == nil {
-				for _, fv := range funcValues(c.Call.Value, 0) {
-					if touches(fv, true) {
-						return true
-					}
-				}
-				return false
-			}
-			if v, ok := memo[g]; ok {
-				return v
-			}
-			memo[g] = touches(g, true)
-			return memo[g]
-		}
-		sites := 0
-		for _, fd := range funcDecls(p) {
-			if isTestFile(w, fd.Pos()) {
-				continue
-			}
-			obj, _ := p.TypesInfo.Defs[fd.Name].(*types.Func)
-			f := w.SSAFunc(obj)
-			if f == nil {
-				continue
-			}
-			for _, fn := range append([]*ssa.Function{f}, f.AnonFuncs...) {
-				for _, b := range fn.Blocks {
-					for i, in := range b.Instrs {
-						c, ok := in.(*ssa.Call)
-						if !ok || c.Call.StaticCallee() != tw {
-							continue
-						}
-						sites++
-						// backwards from the call: the nearest token taken is expect(itemQuote)
-						okAll := true
-						seen := map[*ssa.BasicBlock]bool{}
-						var back func(bb *ssa.BasicBlock, from int)
-						back = func(bb *ssa.BasicBlock, from int) {
-							for j := from; j >= 0; j-- {
-								pc, isCall := bb.Instrs[j].(*ssa.Call)
-								if !isCall || !advances(pc) {
-									continue
-								}
-								if pc.Call.StaticCallee() == exp && len(pc.Call.Args) >= 2 {
-									if k, isK := pc.Call.Args[1].(*ssa.Const); isK && k.Value != nil {
-										if n, isInt := intConst(k.Value); isInt && n == quote {
-											return
-										}
-									}
-								}
-								okAll = false
-								return
-							}
-							if len(bb.Preds) == 0 {
-								okAll = false
-							}
-							for _, pb := range bb.Preds {
-								if !seen[pb] {
-									seen[pb] = true
-									back(pb, len(pb.Instrs)-1)
-								}
-							}
-						}
-						back(b, i-1)
-						r.Check(okAll, "R08.15", "trimWhitespace in "+funcDeclName(fd), c.Pos(), "nearest preceding token read is expect(itemQuote)", "a further token is read (or none is) between the closing quote and the indentation stripping of the piece, so the column of the opening quote is measured from the wrong place")
-					}
-				}
-			}
-		}
-		r.Check(sites >= 1, "R08.15", "call sites of trimWhitespace", w.Func("parse", "trimWhitespace").Pos(), ">= 1", "no call site found")
-	})
+	r.guard("R08.15", func() { c08ClosingQuoteLast(w, r, "R08.15") })
 
 	r.Rule("R08.14", "'+' outside quotes is always the concatenation token: in lexStmt the Plus item is emitted exactly when the rune read is '+', whatever follows it (a comment may follow the '+' directly)", 1)
 	r.guard("R08.14", func() { c08PunctToken(w, r, "R08.14", '+', "itemPlus") })
@@ -1138,67 +1027,7 @@ func checkC10(w *World, r *Report) {
 	r.guard("R10.11", func() { c08LineLoop(w, r, "R10.11", "R10.11") })
 
 	r.Rule("R10.12", "interning never gives a statement another statement's argument: the key under which ArgInterner.Intern shares an argument keeps the statement kind and the argument text apart (a struct of the two; a concatenation of keyword and text maps `typedef foo` and `type deffoo` to one key)", 1)
-	r.guard("R10.12", func() {
-		f := w.SSAFunc(w.Method("parse", "ArgInterner", "Intern"))
-		if f == nil || len(f.Params) != 3 {
-			panic(undecided{"parse.ArgInterner.Intern"})
-		}
-		n := 0
-		why := ""
-		for _, b := range f.Blocks {
-			for _, in := range b.Instrs {
-				var key ssa.Value
-				switch x := in.(type) {
-				case *ssa.Lookup:
-					if _, isMap := x.X.Type().Underlying().(*types.Map); isMap {
-						key = x.Index
-					}
-				case *ssa.MapUpdate:
-					key = x.Key
-				}
-				if key == nil {
-					continue
-				}
-				n++
-				st, isStruct := key.Type().Underlying().(*types.Struct)
-				if !isStruct {
-					why = "the key is a " + key.Type().String() + " computed from keyword and text (`" + key.String() + "`), not a pair"
-					continue
-				}
-				// the struct read from a local the two components were stored into, each whole
-				kinds, texts := false, false
-				if ld, isLd := key.(*ssa.UnOp); isLd {
-					if cell, isA := ld.X.(*ssa.Alloc); isA {
-						for _, ref := range *cell.Referrers() {
-							fa, isFA := ref.(*ssa.FieldAddr)
-							if !isFA {
-								continue
-							}
-							for _, r2 := range *fa.Referrers() {
-								stv, isSt := r2.(*ssa.Store)
-								if !isSt {
-									continue
-								}
-								if stv.Val == ssa.Value(f.Params[1]) {
-									kinds = true
-								}
-								if c, isC := stv.Val.(*ssa.Call); isC && c.Call.IsInvoke() && c.Call.Value == ssa.Value(f.Params[2]) && nm(c.Call.Method) == "String" {
-									texts = true
-								}
-							}
-						}
-					}
-				}
-				if st.NumFields() < 2 || !kinds || !texts {
-					why = "the key does not hold the statement kind and the argument text as two components"
-				}
-			}
-		}
-		if n == 0 {
-			panic(undecided{"ArgInterner.Intern: table access"})
-		}
-		r.Check(why == "", "R10.12", "ArgInterner.Intern key", f.Pos(), "struct{kind, text}", why+": two different statements can share one interned argument, so the node built second carries the first one's argument")
-	})
+	r.guard("R10.12", func() { c10InternerKey(w, r, "R10.12") })
 
 	r.Rule("R10.8", "equivalent quotings and comments decode alike: the column of the opening quote is counted in characters, so a non-ASCII character earlier on the line (in a comment or an earlier piece) does not change how continuation lines are de-indented", 1)
 	r.guard("R10.8", func() { c08QuoteColumn(w, r, "R10.8") })
@@ -1483,4 +1312,182 @@ func c08QuoteColumn(w *World, r *Report, rule string) {
 		})
 	}
 	r.Check(perRune && !byLen, rule, "openQuotePos counts runes", fd.Pos(), "range over the lead-up text, += per rune", "the quote column is derived from byte lengths: a non-ASCII character before the opening quote shifts the indentation that is stripped from continuation lines")
+}
+
+// c10InternerKey (R10.12 / R08.17): the key of the argument interner keeps kind and text apart.
+func c10InternerKey(w *World, r *Report, rule string) {
+	f := w.SSAFunc(w.Method("parse", "ArgInterner", "Intern"))
+	if f == nil || len(f.Params) != 3 {
+		panic(undecided{"parse.ArgInterner.Intern"})
+	}
+	n := 0
+	why := ""
+	for _, b := range f.Blocks {
+		for _, in := range b.Instrs {
+			var key ssa.Value
+			switch x := in.(type) {
+			case *ssa.Lookup:
+				if _, isMap := x.X.Type().Underlying().(*types.Map); isMap {
+					key = x.Index
+				}
+			case *ssa.MapUpdate:
+				key = x.Key
+			}
+			if key == nil {
+				continue
+			}
+			n++
+			st, isStruct := key.Type().Underlying().(*types.Struct)
+			if !isStruct {
+				why = "the key is a " + key.Type().String() + " computed from keyword and text (`" + key.String() + "`), not a pair"
+				continue
+			}
+			// the struct read from a local the two components were stored into, each whole
+			kinds, texts := false, false
+			if ld, isLd := key.(*ssa.UnOp); isLd {
+				if cell, isA := ld.X.(*ssa.Alloc); isA {
+					for _, ref := range *cell.Referrers() {
+						fa, isFA := ref.(*ssa.FieldAddr)
+						if !isFA {
+							continue
+						}
+						for _, r2 := range *fa.Referrers() {
+							stv, isSt := r2.(*ssa.Store)
+							if !isSt {
+								continue
+							}
+							if stv.Val == ssa.Value(f.Params[1]) {
+								kinds = true
+							}
+							if c, isC := stv.Val.(*ssa.Call); isC && c.Call.IsInvoke() && c.Call.Value == ssa.Value(f.Params[2]) && nm(c.Call.Method) == "String" {
+								texts = true
+							}
+						}
+					}
+				}
+			}
+			if st.NumFields() < 2 || !kinds || !texts {
+				why = "the key does not hold the statement kind and the argument text as two components"
+			}
+		}
+	}
+	if n == 0 {
+		panic(undecided{"ArgInterner.Intern: table access"})
+	}
+	r.Check(why == "", rule, "ArgInterner.Intern key", f.Pos(), "struct{kind, text}", why+": two different statements can share one interned argument, so the node built second carries the first one's argument")
+}
+
+// c08ClosingQuoteLast (R08.15 / R10.13): when trimWhitespace runs, the last token read is the closing quote.
+func c08ClosingQuoteLast(w *World, r *Report, rule string) {
+	p := w.Pkg("parse")
+	tw := w.SSAFunc(w.Func("parse", "trimWhitespace"))
+	exp := w.SSAFunc(w.Method("parse", "Tree", "expect"))
+	quote, okQ := pkgConstInt(w, "parse", "itemQuote")
+	if tw == nil || exp == nil || !okQ {
+		panic(undecided{"parse.trimWhitespace / expect / itemQuote"})
+	}
+	isLastPos := func(a ssa.Value) bool {
+		fa, ok := a.(*ssa.FieldAddr)
+		if !ok {
+			return false
+		}
+		pt, _ := fa.X.Type().Underlying().(*types.Pointer)
+		if pt == nil {
+			return false
+		}
+		st, _ := pt.Elem().Underlying().(*types.Struct)
+		return st != nil && st.Field(fa.Field).Name() == nm(w.Field("parse", "lexer", "lastPos"))
+	}
+	touches := func(f *ssa.Function, write bool) bool {
+		for _, g := range bodiesDeep(f, 6) {
+			for _, b := range g.Blocks {
+				for _, in := range b.Instrs {
+					switch x := in.(type) {
+					case *ssa.Store:
+						if write && isLastPos(x.Addr) {
+							return true
+						}
+					case *ssa.UnOp:
+						if !write && x.Op == token.MUL && isLastPos(x.X) {
+							return true
+						}
+					}
+				}
+			}
+		}
+		return false
+	}
+	r.Check(touches(tw, false), rule, "trimWhitespace reads the last-token position", w.Func("parse", "trimWhitespace").Pos(), "reads lexer.lastPos", "")
+	memo := map[*ssa.Function]bool{}
+	advances := func(c *ssa.Call) bool {
+		g := c.Call.StaticCallee()
+		if g == nil {
+			for _, fv := range funcValues(c.Call.Value, 0) {
+				if touches(fv, true) {
+					return true
+				}
+			}
+			return false
+		}
+		if v, ok := memo[g]; ok {
+			return v
+		}
+		memo[g] = touches(g, true)
+		return memo[g]
+	}
+	sites := 0
+	for _, fd := range funcDecls(p) {
+		if isTestFile(w, fd.Pos()) {
+			continue
+		}
+		obj, _ := p.TypesInfo.Defs[fd.Name].(*types.Func)
+		f := w.SSAFunc(obj)
+		if f == nil {
+			continue
+		}
+		for _, fn := range append([]*ssa.Function{f}, f.AnonFuncs...) {
+			for _, b := range fn.Blocks {
+				for i, in := range b.Instrs {
+					c, ok := in.(*ssa.Call)
+					if !ok || c.Call.StaticCallee() != tw {
+						continue
+					}
+					sites++
+					// backwards from the call: the nearest token taken is expect(itemQuote)
+					okAll := true
+					seen := map[*ssa.BasicBlock]bool{}
+					var back func(bb *ssa.BasicBlock, from int)
+					back = func(bb *ssa.BasicBlock, from int) {
+						for j := from; j >= 0; j-- {
+							pc, isCall := bb.Instrs[j].(*ssa.Call)
+							if !isCall || !advances(pc) {
+								continue
+							}
+							if pc.Call.StaticCallee() == exp && len(pc.Call.Args) >= 2 {
+								if k, isK := pc.Call.Args[1].(*ssa.Const); isK && k.Value != nil {
+									if n, isInt := intConst(k.Value); isInt && n == quote {
+										return
+									}
+								}
+							}
+							okAll = false
+							return
+						}
+						if len(bb.Preds) == 0 {
+							okAll = false
+						}
+						for _, pb := range bb.Preds {
+							if !seen[pb] {
+								seen[pb] = true
+								back(pb, len(pb.Instrs)-1)
+							}
+						}
+					}
+					back(b, i-1)
+					r.Check(okAll, rule, "trimWhitespace in "+funcDeclName(fd), c.Pos(), "nearest preceding token read is expect(itemQuote)", "a further token is read (or none is) between the closing quote and the indentation stripping of the piece, so the column of the opening quote is measured from the wrong place")
+				}
+			}
+		}
+	}
+	r.Check(sites >= 1, rule, "call sites of trimWhitespace", w.Func("parse", "trimWhitespace").Pos(), ">= 1", "no call site found")
 }
